@@ -3,10 +3,8 @@
 //@item src/cv_section.rs struct CompressedVectorSectionHeader
 //@enditem
 impl DataPacketHeader {
-//@item src/packet.rs const SIZE owner=DataPacketHeader
-//@enditem
+//@consts src/packet.rs DataPacketHeader
 }
 impl CompressedVectorSectionHeader {
-//@item src/cv_section.rs const SIZE owner=CompressedVectorSectionHeader
-//@enditem
+//@consts src/cv_section.rs CompressedVectorSectionHeader
 }
